@@ -7,3 +7,7 @@ import "github.com/elys-network/elys/zzvrf/h_c12"
 //vrf:cover uncommit-ok uncommit-refused
 //vrf:bound see h_c12.H_Uncommit_TwoShareDenoms
 func H_TwoPools_LeaveOne() { h_c12.H_Uncommit_TwoShareDenoms() }
+
+//vrf:cover refused
+//vrf:bound see h_c12.H_Messages_CannotReleasePoolShares
+func H_CommitmentMessages_CannotReleaseShares() { h_c12.H_Messages_CannotReleasePoolShares() }
